@@ -20,8 +20,8 @@ Print Assumptions C11_nothing_unmentioned_added.
 (* A matched import is deleted only by the rule: its package name was taken over by a '+'
    import, or no selector on that name (without an object) remains in the rewritten file. *)
 Theorem C11_matched_deleted_iff : forall id names tree imps pb pk im,
-  (match assoc (fst pb) (id_bound id) with
-   | Some (n, true) => (n, None) | Some (n, false) => (n, Some n) | None => (snd pb, None) end) = (pk, im) ->
+  (match assoc_ikey (fst pb, fst (snd pb)) (id_bound id) with
+   | Some (n, true) => (n, None) | Some (n, false) => (n, Some n) | None => (snd (snd pb), None) end) = (pk, im) ->
   cleanup_import id names tree imps pb =
     if existsb (N.eqb pk) names || negb (uses_name (S (size tree)) pk tree)
     then del_import imps im (fst pb) else imps.
@@ -36,6 +36,18 @@ Example C11_base_guess_refuted :
   (* the file still says yaml.Unmarshal (atom 3 = "yaml"), the import path's base is "yaml.v3" (atom 4) *)
   let sel := Ptr T_P_ast_SelectorExpr (Struct T_ast_SelectorExpr [Iface T_ast_Expr (id_of 3); id_of 8]) in
   let imps := [{| i_name := None; i_path := 5; i_base := 4 |}] in
-  cleanup_import {| id_bound := []; id_matched := [(5, 4)] |} [] sel imps (5, 4) = [] /\
+  cleanup_import {| id_bound := []; id_matched := [(5, (None, 4))] |} [] sel imps (5, (None, 4)) = [] /\
   uses_name 10 3 sel = true.
 Proof. vm_compute. split; reflexivity. Qed.
+
+(* F34: a patch that lists the same path twice, under two names ('-import a "x"' / '-import b "x"'):
+   each clause has its own record (importKey = path and name in the patch), so both imports are
+   deleted once nothing refers to their names; the third import is kept *)
+Example C11_same_path_under_two_names :
+  let tree := Ptr T_P_ast_Ident (Struct T_ast_Ident [Pos true; Atom T_string 9; Nil T_P_ast_Object]) in
+  let id := {| id_bound := [((5, Some 2), (2, false)); ((5, Some 1), (1, false))];
+               id_matched := [(5, (Some 1, 4)); (5, (Some 2, 4))] |} in
+  let imps := [{| i_name := Some 1; i_path := 5; i_base := 4 |}; {| i_name := Some 2; i_path := 5; i_base := 4 |};
+               {| i_name := None; i_path := 6; i_base := 6 |}] in
+  fold_left (cleanup_import id [] tree) (id_matched id) imps = [{| i_name := None; i_path := 6; i_base := 6 |}].
+Proof. vm_compute. reflexivity. Qed.
